@@ -527,15 +527,19 @@ fn c20(seed: u64, case: u64, out: &Out) {
                     let junk = [3u8; 65536];
                     while unsafe { libc::write(fd, junk.as_ptr().cast(), junk.len()) } > 0 {}
                 }
-                // what a hooked call does around its readiness wait
-                co.syscall((), SyscallName::recv, SyscallState::Executing).expect("enter syscall state");
+                // what a hooked call does around its readiness waits: it enters the call once and may wait several times inside it
+                if r == 0 {
+                    co.syscall((), SyscallName::recv, SyscallState::Executing).expect("enter syscall state");
+                }
                 let t_start = mono_ns();
                 waiting_now.lock().unwrap().insert(w, (r, t_start));
                 let res = if write_interest { EventLoops::wait_write_event(fd, Some(Duration::from_secs(3))) } else { EventLoops::wait_read_event(fd, Some(Duration::from_secs(3))) };
                 let t_ret = mono_ns();
                 waiting_now.lock().unwrap().remove(&w);
-                let co = SchedulableCoroutine::current().expect("in coroutine");
-                let _ = co.running();
+                if r + 1 == n {
+                    let co = SchedulableCoroutine::current().expect("in coroutine");
+                    let _ = co.running();
+                }
                 if !write_interest {
                     let mut b = [0u8; 64];
                     unsafe { libc::read(fd, b.as_mut_ptr().cast(), 64) };
@@ -824,7 +828,7 @@ fn c13(seed: u64, case: u64, out: &Out) {
     // 0 cancel while queued, 1 cancel while running, 2 cancel while suspended in a delay, 3 forced: the running target finishes between lookup and signal
     let phase = case % 4;
     let others = rng.usize(3, 12);
-    let workers = if phase == 0 { 1 } else if phase == 3 { rng.usize(2, 3) } else { rng.usize(1, 3) };
+    let workers = if phase == 0 { 1 } else if phase >= 2 { rng.usize(2, 3) } else { rng.usize(1, 3) };
     out.begin(case, jobj! {"target_phase" => ["queued", "running", "suspended (delay)", "running, and it yields the thread to another task between the canceller's lookup and its signal (forced through the pause hook)"][phase as usize],
         "other_tasks" => others, "pool_max_size" => workers});
     init(1, workers, 0, 0);
@@ -894,14 +898,15 @@ fn c13(seed: u64, case: u64, out: &Out) {
     }, None, Some(0));
     let target_id = th.id().unwrap_or(0);
     for i in 1..=others {
-        let kind = if phase == 3 { 1 } else { rng.below(3) };
+        // phase 2: task 1 is a long spinner, so that somebody else is running on the thread when the suspended target is cancelled
+        let kind = if phase == 3 || (phase == 2 && i == 1) { 1 } else { rng.below(3) };
         let h = EventLoops::submit_task(None, move |_| {
             stamp(i, "start");
             match kind {
                 0 => {}
                 1 => {
                     let t = Instant::now();
-                    while t.elapsed() < Duration::from_millis(if phase == 3 { 150 } else { 3 }) {
+                    while t.elapsed() < Duration::from_millis(if phase == 3 { 150 } else if phase == 2 && i == 1 { 250 } else { 3 }) {
                         std::hint::spin_loop();
                     }
                 }
